@@ -48,7 +48,7 @@ import (
 	"google.golang.org/protobuf/proto"
 )
 
-type vTpl struct {
+type zvsTpl struct {
 	ID    string   `json:"id"`
 	Vmax  string   `json:"vmax"`
 	Pol   string   `json:"pol"`
@@ -59,13 +59,13 @@ type vTpl struct {
 	Cm    []string `json:"cm"`
 }
 
-type vBundle struct {
+type zvsBundle struct {
 	Cas []string `json:"cas"`
 	Lay string   `json:"lay"`
 }
 
-// vInfo carries the concrete values behind the abstract descriptors (not read by TLC; used by --replay).
-type vInfo struct {
+// zvsInfo carries the concrete values behind the abstract descriptors (not read by TLC; used by --replay).
+type zvsInfo struct {
 	Via     string   `json:"via"`     // direct | directnil | newsigner | gensignconf | tls
 	Replies []string `json:"replies"` // hex of the key material each endpoint answers with
 	Codes   []int    `json:"codes"`   // status code of "rpc" endpoints
@@ -73,38 +73,38 @@ type vInfo struct {
 	Note    string   `json:"note,omitempty"`
 }
 
-type vCase struct {
-	Tid    string  `json:"tid"`
-	Eps    []vTpl  `json:"eps"`
-	Bundle vBundle `json:"bundle"`
-	Info   *vInfo  `json:"info"`
+type zvsCase struct {
+	Tid    string    `json:"tid"`
+	Eps    []zvsTpl  `json:"eps"`
+	Bundle zvsBundle `json:"bundle"`
+	Info   *zvsInfo  `json:"info"`
 }
 
-type vPlan struct {
-	Mode    string  `json:"mode"`
-	Cases   []vCase `json:"cases"`
-	Random  int     `json:"random"`
-	N0      bool    `json:"n0"`
-	Replays []vCase `json:"replays"`
-	Lanes   int     `json:"lanes"`
-	TryMs   int     `json:"tryms"`
+type zvsPlan struct {
+	Mode    string    `json:"mode"`
+	Cases   []zvsCase `json:"cases"`
+	Random  int       `json:"random"`
+	N0      bool      `json:"n0"`
+	Replays []zvsCase `json:"replays"`
+	Lanes   int       `json:"lanes"`
+	TryMs   int       `json:"tryms"`
 }
 
-type vReset struct {
-	Ev     string  `json:"ev"`
-	Tid    string  `json:"tid"`
-	Eps    []vTpl  `json:"eps"`
-	Bundle vBundle `json:"bundle"`
-	Info   *vInfo  `json:"info"`
+type zvsReset struct {
+	Ev     string    `json:"ev"`
+	Tid    string    `json:"tid"`
+	Eps    []zvsTpl  `json:"eps"`
+	Bundle zvsBundle `json:"bundle"`
+	Info   *zvsInfo  `json:"info"`
 }
 
-type vStep struct {
+type zvsStep struct {
 	Ev  string                 `json:"ev"`
 	Tid string                 `json:"tid"`
 	E   map[string]interface{} `json:"e"`
 }
 
-func vNorm(s []string) []string {
+func zvsNorm(s []string) []string {
 	if s == nil {
 		return []string{}
 	}
@@ -115,21 +115,21 @@ func vNorm(s []string) []string {
 // SSH certificates the stub CAs answer with
 
 var (
-	vCertMu   sync.Mutex
-	vCertPool = map[string]*ssh.Certificate{}
+	zvsCertMu   sync.Mutex
+	zvsCertPool = map[string]*ssh.Certificate{}
 )
 
-func vFp(k ssh.PublicKey) string {
+func zvsFp(k ssh.PublicKey) string {
 	h := sha256.Sum256(k.Marshal())
 	return hex.EncodeToString(h[:8])
 }
 
-// vCert returns the process-wide certificate named (a, b): distinct subject keys of rotating types.
-func vCert(a, b int) *ssh.Certificate {
+// zvsCert returns the process-wide certificate named (a, b): distinct subject keys of rotating types.
+func zvsCert(a, b int) *ssh.Certificate {
 	id := fmt.Sprintf("%d_%d", a, b)
-	vCertMu.Lock()
-	defer vCertMu.Unlock()
-	if c, ok := vCertPool[id]; ok {
+	zvsCertMu.Lock()
+	defer zvsCertMu.Unlock()
+	if c, ok := zvsCertPool[id]; ok {
 		return c
 	}
 	kinds := []string{"ed25519", "ecdsa256", "ecdsa384", "rsa2048", "ecdsa521"}
@@ -142,11 +142,11 @@ func vCert(a, b int) *ssh.Certificate {
 	now := uint64(time.Now().Unix())
 	c := verifh.Mint(ca.Signer, verifh.CertSpec{Key: sub.Pub, KeyID: "verif-" + id, ValidAfter: now - 60, ValidBefore: now + 3600,
 		Principals: []string{"user" + id}, Serial: uint64(a*100 + b), Exts: GetDefaultExtension()})
-	vCertPool[id] = c
+	zvsCertPool[id] = c
 	return c
 }
 
-func vLine(c *ssh.Certificate, comment, indent, eol string) []byte {
+func zvsLine(c *ssh.Certificate, comment, indent, eol string) []byte {
 	l := strings.TrimRight(string(ssh.MarshalAuthorizedKey(c)), "\n")
 	if comment != "" {
 		l += " " + comment
@@ -154,7 +154,7 @@ func vLine(c *ssh.Certificate, comment, indent, eol string) []byte {
 	return []byte(indent + l + eol)
 }
 
-func vComment(shape string, m, j int, r *mrand.Rand) string {
+func zvsComment(shape string, m, j int, r *mrand.Rand) string {
 	switch shape {
 	case "none":
 		return ""
@@ -172,11 +172,11 @@ func vComment(shape string, m, j int, r *mrand.Rand) string {
 	return shape
 }
 
-// vInstantiate fills the concrete reply bytes, status codes and the expected certificate / comment names of a case
+// zvsInstantiate fills the concrete reply bytes, status codes and the expected certificate / comment names of a case
 // given as templates (direction A), unless the case already carries them (replay).
-func vInstantiate(c *vCase, r *mrand.Rand) {
+func zvsInstantiate(c *zvsCase, r *mrand.Rand) {
 	if c.Info == nil {
-		c.Info = &vInfo{}
+		c.Info = &zvsInfo{}
 	}
 	have := len(c.Info.Replies) == len(c.Eps) && len(c.Info.Codes) == len(c.Eps) && len(c.Eps) > 0
 	if !have {
@@ -185,9 +185,9 @@ func vInstantiate(c *vCase, r *mrand.Rand) {
 	}
 	for m := range c.Eps {
 		e := &c.Eps[m]
-		e.Sh = vNorm(e.Sh)
+		e.Sh = zvsNorm(e.Sh)
 		if have {
-			e.Certs, e.Cm = vNorm(e.Certs), vNorm(e.Cm)
+			e.Certs, e.Cm = zvsNorm(e.Certs), zvsNorm(e.Cm)
 			continue
 		}
 		e.Certs, e.Cm = []string{}, []string{}
@@ -195,10 +195,10 @@ func vInstantiate(c *vCase, r *mrand.Rand) {
 		switch e.Cls {
 		case "ok":
 			for j, sh := range e.Sh {
-				crt := vCert(m+1, j+1)
-				cm := vComment(sh, m+1, j+1, r)
-				reply = append(reply, vLine(crt, cm, "", "\n")...)
-				e.Certs = append(e.Certs, vFp(crt))
+				crt := zvsCert(m+1, j+1)
+				cm := zvsComment(sh, m+1, j+1, r)
+				reply = append(reply, zvsLine(crt, cm, "", "\n")...)
+				e.Certs = append(e.Certs, zvsFp(crt))
 				e.Cm = append(e.Cm, hex.EncodeToString([]byte(cm)))
 			}
 		case "unparsable":
@@ -228,15 +228,15 @@ func vInstantiate(c *vCase, r *mrand.Rand) {
 	}
 }
 
-// vRandomCase draws a case with concrete reply shapes the model abstracts away (direction B).
-func vRandomCase(tid string, r *mrand.Rand, tlsMode bool) vCase {
+// zvsRandomCase draws a case with concrete reply shapes the model abstracts away (direction B).
+func zvsRandomCase(tid string, r *mrand.Rand, tlsMode bool) zvsCase {
 	n := 1 + r.Intn(4)
 	if !tlsMode && r.Intn(12) == 0 {
 		n = 0
 	}
-	c := vCase{Tid: tid, Eps: make([]vTpl, n), Bundle: vBundle{Cas: []string{}, Lay: "none"}, Info: &vInfo{Replies: make([]string, n), Codes: make([]int, n)}}
+	c := zvsCase{Tid: tid, Eps: make([]zvsTpl, n), Bundle: zvsBundle{Cas: []string{}, Lay: "none"}, Info: &zvsInfo{Replies: make([]string, n), Codes: make([]int, n)}}
 	if tlsMode {
-		bs := []vBundle{{[]string{"ca1"}, "one"}, {[]string{"ca1", "ca2"}, "two"}, {[]string{"ca1", "ca2"}, "concat"}, {[]string{"ca2"}, "one"}, {[]string{"ca2", "ca1"}, "two"}}
+		bs := []zvsBundle{{[]string{"ca1"}, "one"}, {[]string{"ca1", "ca2"}, "two"}, {[]string{"ca1", "ca2"}, "concat"}, {[]string{"ca2"}, "one"}, {[]string{"ca2", "ca1"}, "two"}}
 		c.Bundle = bs[r.Intn(len(bs))]
 	}
 	noise := []string{"", "   ", "# a comment line", "-----BEGIN SSH-----", "garbage", "two words", "ssh-rsa notbase64!", "\t"}
@@ -244,7 +244,7 @@ func vRandomCase(tid string, r *mrand.Rand, tlsMode bool) vCase {
 	used := map[string]bool{}
 	for m := 0; m < n; m++ {
 		e := &c.Eps[m]
-		*e = vTpl{ID: "plain", Vmax: "none", Pol: "none", Sh: []string{}, Certs: []string{}, Cm: []string{}}
+		*e = zvsTpl{ID: "plain", Vmax: "none", Pol: "none", Sh: []string{}, Certs: []string{}, Cm: []string{}}
 		if tlsMode {
 			kinds := [][2]string{{"ca1", "tls13"}, {"ca1", "tls12"}, {"ca2", "tls13"}, {"ca2", "tls12"}, {"foreign", "tls13"}, {"selfsigned", "tls13"},
 				{"expired", "tls13"}, {"wrongname", "tls13"}, {"ca1", "tls11"}, {"ca2", "tls11"}, {"foreign", "tls12"}, {"expired", "tls11"},
@@ -273,17 +273,17 @@ func vRandomCase(tid string, r *mrand.Rand, tlsMode bool) vCase {
 					}
 				}
 				used[fmt.Sprint(a, b)] = true
-				crt := vCert(a, b)
+				crt := zvsCert(a, b)
 				sh := shapes[r.Intn(len(shapes))]
-				cm := vComment(sh, a, b, r)
+				cm := zvsComment(sh, a, b, r)
 				eol := []string{"\n", "\n", "\r\n"}[r.Intn(3)]
 				indent := []string{"", "", "", " ", "\t"}[r.Intn(5)]
 				if j == k-1 && r.Intn(4) == 0 {
 					eol = "" // last line without terminator
 				}
-				reply = append(reply, vLine(crt, cm, indent, eol)...)
+				reply = append(reply, zvsLine(crt, cm, indent, eol)...)
 				e.Sh = append(e.Sh, sh)
-				e.Certs = append(e.Certs, vFp(crt))
+				e.Certs = append(e.Certs, zvsFp(crt))
 				e.Cm = append(e.Cm, hex.EncodeToString([]byte(cm)))
 			}
 			if len(reply) > 0 && reply[len(reply)-1] == '\n' {
@@ -312,7 +312,7 @@ func vRandomCase(tid string, r *mrand.Rand, tlsMode bool) vCase {
 	return c
 }
 
-func vRequest(r *mrand.Rand, tid string) *pb.SSHCertificateSigningRequest {
+func zvsRequest(r *mrand.Rand, tid string) *pb.SSHCertificateSigningRequest {
 	return &pb.SSHCertificateSigningRequest{
 		KeyMeta:         &pb.KeyMeta{Identifier: "ssh-user-key-" + tid},
 		Principals:      []string{"user", "user:touch", fmt.Sprintf("p%d", r.Intn(1000))},
@@ -328,15 +328,15 @@ func vRequest(r *mrand.Rand, tid string) *pb.SSHCertificateSigningRequest {
 // ---------------------------------------------------------------------------------------------
 // PKI for the TLS files of NewSigner and for the TLS servers of mode c18
 
-type vAuthority struct {
+type zvsAuthority struct {
 	cert *x509.Certificate
 	key  *ecdsa.PrivateKey
 	pem  []byte
 }
 
-type vPKI struct {
+type zvsPKI struct {
 	dir             string
-	ca              map[string]*vAuthority // ca1, ca2, caX, cli
+	ca              map[string]*zvsAuthority // ca1, ca2, caX, cli
 	cliCert, cliKey string
 	cliDER          []byte
 	caFile          map[string]string // ca1, ca2, concat
@@ -346,13 +346,13 @@ type vPKI struct {
 	serial          int64
 }
 
-func vMust(err error) {
+func zvsMust(err error) {
 	if err != nil {
 		panic(err)
 	}
 }
 
-func (p *vPKI) sign(tpl *x509.Certificate, parent *vAuthority, key *ecdsa.PrivateKey) []byte {
+func (p *zvsPKI) sign(tpl *x509.Certificate, parent *zvsAuthority, key *ecdsa.PrivateKey) []byte {
 	p.serial++
 	tpl.SerialNumber = big.NewInt(p.serial + 1000)
 	pc, pk := tpl, key
@@ -360,31 +360,31 @@ func (p *vPKI) sign(tpl *x509.Certificate, parent *vAuthority, key *ecdsa.Privat
 		pc, pk = parent.cert, parent.key
 	}
 	der, err := x509.CreateCertificate(rand.Reader, tpl, pc, &key.PublicKey, pk)
-	vMust(err)
+	zvsMust(err)
 	return der
 }
 
-func (p *vPKI) authority(cn string) *vAuthority {
+func (p *zvsPKI) authority(cn string) *zvsAuthority {
 	k, err := ecdsa.GenerateKey(elliptic.P256(), rand.Reader)
-	vMust(err)
+	zvsMust(err)
 	now := time.Now()
 	tpl := &x509.Certificate{Subject: pkix.Name{CommonName: cn, Organization: []string{"verif"}}, NotBefore: now.Add(-96 * time.Hour), NotAfter: now.Add(96 * time.Hour),
 		IsCA: true, BasicConstraintsValid: true, KeyUsage: x509.KeyUsageCertSign | x509.KeyUsageDigitalSignature}
 	der := p.sign(tpl, nil, k)
 	c, err := x509.ParseCertificate(der)
-	vMust(err)
-	return &vAuthority{cert: c, key: k, pem: pem.EncodeToMemory(&pem.Block{Type: "CERTIFICATE", Bytes: der})}
+	zvsMust(err)
+	return &zvsAuthority{cert: c, key: k, pem: pem.EncodeToMemory(&pem.Block{Type: "CERTIFICATE", Bytes: der})}
 }
 
-func vNewPKI(dir string) *vPKI {
-	vMust(os.MkdirAll(dir, 0o700))
-	p := &vPKI{dir: dir, ca: map[string]*vAuthority{}, caFile: map[string]string{}, leaves: map[string]*tls.Certificate{}}
+func zvsNewPKI(dir string) *zvsPKI {
+	zvsMust(os.MkdirAll(dir, 0o700))
+	p := &zvsPKI{dir: dir, ca: map[string]*zvsAuthority{}, caFile: map[string]string{}, leaves: map[string]*tls.Certificate{}}
 	for _, n := range []string{"ca1", "ca2", "caX", "caH", "cli"} {
 		p.ca[n] = p.authority("verif " + n)
 	}
 	w := func(name string, b []byte) string {
 		f := filepath.Join(dir, name)
-		vMust(os.WriteFile(f, b, 0o600))
+		zvsMust(os.WriteFile(f, b, 0o600))
 		return f
 	}
 	p.caFile["ca1"] = w("ca1.pem", p.ca["ca1"].pem)
@@ -393,17 +393,17 @@ func vNewPKI(dir string) *vPKI {
 	// the trust store of the RA's host, under the control of the harness: it holds the CA "caH" only.  Go reads these
 	// variables when the system pool is first used, which the code under test must never do for CA servers.
 	p.caFile["host"] = w("host_roots.pem", p.ca["caH"].pem)
-	vMust(os.MkdirAll(filepath.Join(dir, "empty_cert_dir"), 0o700))
-	vMust(os.Setenv("SSL_CERT_FILE", p.caFile["host"]))
-	vMust(os.Setenv("SSL_CERT_DIR", filepath.Join(dir, "empty_cert_dir")))
+	zvsMust(os.MkdirAll(filepath.Join(dir, "empty_cert_dir"), 0o700))
+	zvsMust(os.Setenv("SSL_CERT_FILE", p.caFile["host"]))
+	zvsMust(os.Setenv("SSL_CERT_DIR", filepath.Join(dir, "empty_cert_dir")))
 	k, err := ecdsa.GenerateKey(elliptic.P256(), rand.Reader)
-	vMust(err)
+	zvsMust(err)
 	now := time.Now()
 	der := p.sign(&x509.Certificate{Subject: pkix.Name{CommonName: "ysshra-ra.verif"}, NotBefore: now.Add(-time.Hour), NotAfter: now.Add(48 * time.Hour),
 		KeyUsage: x509.KeyUsageDigitalSignature, ExtKeyUsage: []x509.ExtKeyUsage{x509.ExtKeyUsageClientAuth}}, p.ca["cli"], k)
 	p.cliDER = der
 	kb, err := x509.MarshalECPrivateKey(k)
-	vMust(err)
+	zvsMust(err)
 	p.cliCert = w("client.crt", pem.EncodeToMemory(&pem.Block{Type: "CERTIFICATE", Bytes: der}))
 	p.cliKey = w("client.key", pem.EncodeToMemory(&pem.Block{Type: "EC PRIVATE KEY", Bytes: kb}))
 	p.cliPool = x509.NewCertPool()
@@ -412,7 +412,7 @@ func vNewPKI(dir string) *vPKI {
 }
 
 // leaf returns the server certificate of identity class id for the endpoint 127.0.0.<pos>.
-func (p *vPKI) leaf(id string, pos int) *tls.Certificate {
+func (p *zvsPKI) leaf(id string, pos int) *tls.Certificate {
 	key := fmt.Sprintf("%s|%d", id, pos)
 	p.mu.Lock()
 	defer p.mu.Unlock()
@@ -420,12 +420,12 @@ func (p *vPKI) leaf(id string, pos int) *tls.Certificate {
 		return c
 	}
 	k, err := ecdsa.GenerateKey(elliptic.P256(), rand.Reader)
-	vMust(err)
+	zvsMust(err)
 	now := time.Now()
 	tpl := &x509.Certificate{Subject: pkix.Name{CommonName: fmt.Sprintf("crypki-%s-%d.verif", id, pos)}, NotBefore: now.Add(-time.Hour), NotAfter: now.Add(48 * time.Hour),
 		KeyUsage: x509.KeyUsageDigitalSignature, ExtKeyUsage: []x509.ExtKeyUsage{x509.ExtKeyUsageServerAuth},
 		IPAddresses: []net.IP{net.IPv4(127, 0, 0, byte(pos))}, BasicConstraintsValid: true}
-	var parent *vAuthority
+	var parent *zvsAuthority
 	switch id {
 	case "ca1", "ca2":
 		parent = p.ca[id]
@@ -451,7 +451,7 @@ func (p *vPKI) leaf(id string, pos int) *tls.Certificate {
 	return c
 }
 
-func (p *vPKI) bundleFiles(b vBundle) []string {
+func (p *zvsPKI) bundleFiles(b zvsBundle) []string {
 	switch {
 	case b.Lay == "concat":
 		return []string{p.caFile["concat"]}
@@ -465,7 +465,7 @@ func (p *vPKI) bundleFiles(b vBundle) []string {
 	return fs
 }
 
-func (p *vPKI) serverConfig(e vTpl, pos int) *tls.Config {
+func (p *zvsPKI) serverConfig(e zvsTpl, pos int) *tls.Config {
 	cfg := &tls.Config{Certificates: []tls.Certificate{*p.leaf(e.ID, pos)}, MinVersion: tls.VersionTLS10, NextProtos: []string{"h2"}, ClientCAs: p.cliPool}
 	// explicit list: grpc's server credentials would otherwise restrict the suites to the HTTP/2-safe AEAD ones, which
 	// no TLS 1.0/1.1 handshake can use, and the "TLS <= 1.1 only" server would fail for the wrong reason
@@ -494,9 +494,9 @@ func (p *vPKI) serverConfig(e vTpl, pos int) *tls.Config {
 // ---------------------------------------------------------------------------------------------
 // lanes: a set of position servers (endpoint 1..4) that execute one case at a time
 
-const vMaxPos = 4
+const zvsMaxPos = 4
 
-type vHit struct {
+type zvsHit struct {
 	seq       int
 	pos       int
 	hs, ver   string
@@ -505,35 +505,35 @@ type vHit struct {
 	done      bool
 }
 
-type vLane struct {
+type zvsLane struct {
 	id                        int
 	tls                       bool
-	pki                       *vPKI
+	pki                       *zvsPKI
 	port                      int
 	mu                        sync.Mutex
-	cur                       *vCase
+	cur                       *zvsCase
 	req                       *pb.SSHCertificateSigningRequest
 	reply                     [][]byte
-	hits                      []*vHit
+	hits                      []*zvsHit
 	accepted, closed, running int
-	bufl                      [vMaxPos + 1]*bufconn.Listener
+	bufl                      [zvsMaxPos + 1]*bufconn.Listener
 	srv                       []*grpc.Server
 }
 
-// vListener counts accepted and closed server-side connections of a lane, so that a case is only finished when
+// zvsListener counts accepted and closed server-side connections of a lane, so that a case is only finished when
 // everything it caused at the servers has been processed (no stale arrival can leak into the next case).
-type vListener struct {
+type zvsListener struct {
 	net.Listener
-	lane *vLane
+	lane *zvsLane
 }
 
-type vConn struct {
+type zvsConn struct {
 	net.Conn
-	lane *vLane
+	lane *zvsLane
 	once sync.Once
 }
 
-func (l *vListener) Accept() (net.Conn, error) {
+func (l *zvsListener) Accept() (net.Conn, error) {
 	c, err := l.Listener.Accept()
 	if err != nil {
 		return c, err
@@ -541,10 +541,10 @@ func (l *vListener) Accept() (net.Conn, error) {
 	l.lane.mu.Lock()
 	l.lane.accepted++
 	l.lane.mu.Unlock()
-	return &vConn{Conn: c, lane: l.lane}, nil
+	return &zvsConn{Conn: c, lane: l.lane}, nil
 }
 
-func (c *vConn) Close() error {
+func (c *zvsConn) Close() error {
 	c.once.Do(func() {
 		c.lane.mu.Lock()
 		c.lane.closed++
@@ -554,7 +554,7 @@ func (c *vConn) Close() error {
 }
 
 // quiet waits until every accepted connection has been closed and no stub handler is running.
-func (l *vLane) quiet(max time.Duration) bool {
+func (l *zvsLane) quiet(max time.Duration) bool {
 	for t0 := time.Now(); time.Since(t0) < max; time.Sleep(2 * time.Millisecond) {
 		l.mu.Lock()
 		q := l.accepted == l.closed && l.running == 0
@@ -566,13 +566,13 @@ func (l *vLane) quiet(max time.Duration) bool {
 	return false
 }
 
-type vStub struct {
+type zvsStub struct {
 	pb.UnimplementedSigningServer
-	lane *vLane
+	lane *zvsLane
 	pos  int
 }
 
-func (s *vStub) PostUserSSHCertificate(ctx context.Context, in *pb.SSHCertificateSigningRequest) (*pb.SSHKey, error) {
+func (s *zvsStub) PostUserSSHCertificate(ctx context.Context, in *pb.SSHCertificateSigningRequest) (*pb.SSHKey, error) {
 	l := s.lane
 	l.mu.Lock()
 	l.running++
@@ -582,7 +582,7 @@ func (s *vStub) PostUserSSHCertificate(ctx context.Context, in *pb.SSHCertificat
 		l.mu.Unlock()
 	}()
 	same := l.req != nil && proto.Equal(in, l.req)
-	var h *vHit
+	var h *zvsHit
 	if l.tls {
 		for k := len(l.hits) - 1; k >= 0; k-- {
 			if l.hits[k].pos == s.pos {
@@ -592,7 +592,7 @@ func (s *vStub) PostUserSSHCertificate(ctx context.Context, in *pb.SSHCertificat
 		}
 	}
 	if h == nil {
-		h = &vHit{seq: len(l.hits), pos: s.pos, hs: "none", ver: "none", cc: "none", done: true, same: true}
+		h = &zvsHit{seq: len(l.hits), pos: s.pos, hs: "none", ver: "none", cc: "none", done: true, same: true}
 		l.hits = append(l.hits, h)
 	}
 	h.same = h.same && same
@@ -616,20 +616,20 @@ func (s *vStub) PostUserSSHCertificate(ctx context.Context, in *pb.SSHCertificat
 		return nil, status.Error(codes.DeadlineExceeded, "verif: too late")
 	}
 	// an endpoint outside the configured list was contacted: answer with a valid certificate so that misuse shows
-	return &pb.SSHKey{Key: string(vLine(vCert(9, s.pos), "rogue", "", "\n"))}, nil
+	return &pb.SSHKey{Key: string(zvsLine(zvsCert(9, s.pos), "rogue", "", "\n"))}, nil
 }
 
-// vCreds observes the server side of every TLS handshake.
-type vCreds struct {
+// zvsCreds observes the server side of every TLS handshake.
+type zvsCreds struct {
 	credentials.TransportCredentials
-	lane *vLane
+	lane *zvsLane
 	pos  int
 }
 
-func (c *vCreds) ServerHandshake(raw net.Conn) (net.Conn, credentials.AuthInfo, error) {
+func (c *zvsCreds) ServerHandshake(raw net.Conn) (net.Conn, credentials.AuthInfo, error) {
 	l := c.lane
 	l.mu.Lock()
-	h := &vHit{seq: len(l.hits), pos: c.pos, hs: "pending", ver: "none", cc: "none", same: true}
+	h := &zvsHit{seq: len(l.hits), pos: c.pos, hs: "pending", ver: "none", cc: "none", same: true}
 	l.hits = append(l.hits, h)
 	l.running++ // the lane is not quiet before the outcome of this handshake is recorded
 	l.mu.Unlock()
@@ -666,28 +666,28 @@ func (c *vCreds) ServerHandshake(raw net.Conn) (net.Conn, credentials.AuthInfo, 
 	return conn, ai, err
 }
 
-func (c *vCreds) Clone() credentials.TransportCredentials {
-	return &vCreds{TransportCredentials: c.TransportCredentials.Clone(), lane: c.lane, pos: c.pos}
+func (c *zvsCreds) Clone() credentials.TransportCredentials {
+	return &zvsCreds{TransportCredentials: c.TransportCredentials.Clone(), lane: c.lane, pos: c.pos}
 }
 
-func (l *vLane) configFor(pos int) *tls.Config {
+func (l *zvsLane) configFor(pos int) *tls.Config {
 	l.mu.Lock()
 	defer l.mu.Unlock()
-	e := vTpl{ID: "ca1", Vmax: "tls13", Pol: "ignore"}
+	e := zvsTpl{ID: "ca1", Vmax: "tls13", Pol: "ignore"}
 	if l.cur != nil && pos <= len(l.cur.Eps) {
 		e = l.cur.Eps[pos-1]
 	}
 	return l.pki.serverConfig(e, pos)
 }
 
-func vNewLane(id int, pki *vPKI, tlsMode bool) *vLane {
-	l := &vLane{id: id, pki: pki, tls: tlsMode}
+func zvsNewLane(id int, pki *zvsPKI, tlsMode bool) *zvsLane {
+	l := &zvsLane{id: id, pki: pki, tls: tlsMode}
 	if !tlsMode {
-		for pos := 1; pos <= vMaxPos; pos++ {
+		for pos := 1; pos <= zvsMaxPos; pos++ {
 			l.bufl[pos] = bufconn.Listen(1 << 20)
 			s := grpc.NewServer()
-			pb.RegisterSigningServer(s, &vStub{lane: l, pos: pos})
-			go s.Serve(&vListener{Listener: l.bufl[pos], lane: l})
+			pb.RegisterSigningServer(s, &zvsStub{lane: l, pos: pos})
+			go s.Serve(&zvsListener{Listener: l.bufl[pos], lane: l})
 			l.srv = append(l.srv, s)
 		}
 		return l
@@ -695,11 +695,11 @@ func vNewLane(id int, pki *vPKI, tlsMode bool) *vLane {
 	for try := 0; ; try++ {
 		var ls []net.Listener
 		first, err := net.Listen("tcp4", "127.0.0.1:0")
-		vMust(err)
+		zvsMust(err)
 		port := first.Addr().(*net.TCPAddr).Port
 		ls = append(ls, first)
 		ok := true
-		for pos := 2; pos <= vMaxPos; pos++ {
+		for pos := 2; pos <= zvsMaxPos; pos++ {
 			x, err := net.Listen("tcp4", fmt.Sprintf("127.0.0.%d:%d", pos, port))
 			if err != nil {
 				ok = false
@@ -726,41 +726,41 @@ func vNewLane(id int, pki *vPKI, tlsMode bool) *vLane {
 					}
 					return l.configFor(pos), nil
 				}}
-			s := grpc.NewServer(grpc.Creds(&vCreds{TransportCredentials: credentials.NewTLS(base), lane: l, pos: pos}))
-			pb.RegisterSigningServer(s, &vStub{lane: l, pos: pos})
-			go s.Serve(&vListener{Listener: x, lane: l})
+			s := grpc.NewServer(grpc.Creds(&zvsCreds{TransportCredentials: credentials.NewTLS(base), lane: l, pos: pos}))
+			pb.RegisterSigningServer(s, &zvsStub{lane: l, pos: pos})
+			go s.Serve(&zvsListener{Listener: x, lane: l})
 			l.srv = append(l.srv, s)
 		}
 		return l
 	}
 }
 
-func (l *vLane) close() {
+func (l *zvsLane) close() {
 	for _, s := range l.srv {
 		s.Stop()
 	}
 }
 
-func (l *vLane) dial(ctx context.Context, addr string) (net.Conn, error) {
+func (l *zvsLane) dial(ctx context.Context, addr string) (net.Conn, error) {
 	host, _, err := net.SplitHostPort(addr)
 	if err != nil {
 		return nil, err
 	}
 	ip := net.ParseIP(host).To4()
-	if ip == nil || ip[0] != 127 || int(ip[3]) < 1 || int(ip[3]) > vMaxPos {
+	if ip == nil || ip[0] != 127 || int(ip[3]) < 1 || int(ip[3]) > zvsMaxPos {
 		return nil, fmt.Errorf("verif: no harness server at %q", addr)
 	}
 	return l.bufl[int(ip[3])].DialContext(ctx)
 }
 
-// vBase holds the dial options of a real NewSigner per per-try timeout (mode c17).
-type vBase struct {
+// zvsBase holds the dial options of a real NewSigner per per-try timeout (mode c17).
+type zvsBase struct {
 	mu   sync.Mutex
-	pki  *vPKI
+	pki  *zvsPKI
 	opts map[int][]grpc.DialOption
 }
 
-func (b *vBase) get(tryMs int) []grpc.DialOption {
+func (b *zvsBase) get(tryMs int) []grpc.DialOption {
 	b.mu.Lock()
 	defer b.mu.Unlock()
 	if o, ok := b.opts[tryMs]; ok {
@@ -776,8 +776,8 @@ func (b *vBase) get(tryMs int) []grpc.DialOption {
 }
 
 // run executes one case on the lane and returns its records.
-func (l *vLane) run(c *vCase, base *vBase, r *mrand.Rand, tryMs int) []interface{} {
-	vInstantiate(c, r)
+func (l *zvsLane) run(c *zvsCase, base *zvsBase, r *mrand.Rand, tryMs int) []interface{} {
+	zvsInstantiate(c, r)
 	n := len(c.Eps)
 	reply := make([][]byte, n)
 	hasDeadline := false
@@ -785,7 +785,7 @@ func (l *vLane) run(c *vCase, base *vBase, r *mrand.Rand, tryMs int) []interface
 		reply[m], _ = hex.DecodeString(c.Info.Replies[m])
 		hasDeadline = hasDeadline || c.Eps[m].Cls == "deadline"
 	}
-	req := vRequest(r, c.Tid)
+	req := zvsRequest(r, c.Tid)
 	l.mu.Lock()
 	l.cur, l.reply, l.hits, l.req = c, reply, nil, proto.Clone(req).(*pb.SSHCertificateSigningRequest)
 	l.mu.Unlock()
@@ -796,7 +796,7 @@ func (l *vLane) run(c *vCase, base *vBase, r *mrand.Rand, tryMs int) []interface
 		}
 	}
 	out := []interface{}{}
-	step := func(e map[string]interface{}) { out = append(out, vStep{Ev: "step", Tid: c.Tid, E: e}) }
+	step := func(e map[string]interface{}) { out = append(out, zvsStep{Ev: "step", Tid: c.Tid, E: e}) }
 
 	var s *Signer
 	names := make([]string, n)
@@ -853,7 +853,7 @@ func (l *vLane) run(c *vCase, base *vBase, r *mrand.Rand, tryMs int) []interface
 		}
 		s = &Signer{endpoints: eps, dialOptions: opts}
 	}
-	res := vReset{Ev: "reset", Tid: c.Tid, Eps: c.Eps, Bundle: vBundle{Cas: vNorm(c.Bundle.Cas), Lay: c.Bundle.Lay}, Info: c.Info}
+	res := zvsReset{Ev: "reset", Tid: c.Tid, Eps: c.Eps, Bundle: zvsBundle{Cas: zvsNorm(c.Bundle.Cas), Lay: c.Bundle.Lay}, Info: c.Info}
 	if s != nil {
 		var certs []ssh.PublicKey
 		var comments []string
@@ -875,11 +875,11 @@ func (l *vLane) run(c *vCase, base *vBase, r *mrand.Rand, tryMs int) []interface
 			c.Info.Note += " [servers not quiet]"
 		}
 		l.mu.Lock()
-		hits := append([]*vHit{}, l.hits...)
+		hits := append([]*zvsHit{}, l.hits...)
 		l.mu.Unlock()
 		sort.SliceStable(hits, func(a, b int) bool { return hits[a].seq < hits[b].seq })
 		// several connections / calls to the same endpoint in a row are one contact (retries are not constrained)
-		var merged []*vHit
+		var merged []*zvsHit
 		for _, h := range hits {
 			if k := len(merged); k > 0 && merged[k-1].pos == h.pos {
 				p := merged[k-1]
@@ -902,7 +902,7 @@ func (l *vLane) run(c *vCase, base *vBase, r *mrand.Rand, tryMs int) []interface
 				fps = append(fps, "nil")
 				continue
 			}
-			fps = append(fps, vFp(k))
+			fps = append(fps, zvsFp(k))
 		}
 		for _, cm := range comments {
 			cms = append(cms, hex.EncodeToString([]byte(cm)))
@@ -927,16 +927,16 @@ func TestVerifSigner(t *testing.T) {
 		t.Skip("VERIF_PLAN / VERIF_OUT not set")
 	}
 	raw, err := os.ReadFile(planPath)
-	vMust(err)
-	var plan vPlan
-	vMust(json.Unmarshal(raw, &plan))
+	zvsMust(err)
+	var plan zvsPlan
+	zvsMust(json.Unmarshal(raw, &plan))
 	tr, err := verifh.OpenTrace(outPath)
-	vMust(err)
+	zvsMust(err)
 	tlsMode := plan.Mode == "c18"
 	dir := filepath.Join(filepath.Dir(outPath), "pki")
 	defer os.RemoveAll(dir)
-	pki := vNewPKI(dir)
-	base := &vBase{pki: pki, opts: map[int][]grpc.DialOption{}}
+	pki := zvsNewPKI(dir)
+	base := &zvsBase{pki: pki, opts: map[int][]grpc.DialOption{}}
 	if plan.Lanes <= 0 {
 		plan.Lanes = 8
 	}
@@ -944,7 +944,7 @@ func TestVerifSigner(t *testing.T) {
 		plan.TryMs = 300
 	}
 	rnd := verifh.NewRand("signer-"+plan.Mode, 0)
-	cases := []vCase{}
+	cases := []zvsCase{}
 	for k := range plan.Cases {
 		c := plan.Cases[k]
 		if c.Tid == "" {
@@ -954,11 +954,11 @@ func TestVerifSigner(t *testing.T) {
 	}
 	if plan.N0 {
 		for k, via := range []string{"direct", "directnil", "newsigner", "gensignconf"} {
-			cases = append(cases, vCase{Tid: fmt.Sprintf("n%d", k), Eps: []vTpl{}, Bundle: vBundle{Cas: []string{}, Lay: "none"}, Info: &vInfo{Via: via}})
+			cases = append(cases, zvsCase{Tid: fmt.Sprintf("n%d", k), Eps: []zvsTpl{}, Bundle: zvsBundle{Cas: []string{}, Lay: "none"}, Info: &zvsInfo{Via: via}})
 		}
 	}
 	for k := 0; k < plan.Random; k++ {
-		cases = append(cases, vRandomCase(fmt.Sprintf("r%d", k), rnd, tlsMode))
+		cases = append(cases, zvsRandomCase(fmt.Sprintf("r%d", k), rnd, tlsMode))
 	}
 	for k := range plan.Replays {
 		c := plan.Replays[k]
@@ -971,7 +971,7 @@ func TestVerifSigner(t *testing.T) {
 	// warm the certificate pool outside the timed region (RSA key generation)
 	for a := 1; a <= 9; a++ {
 		for b := 1; b <= 6; b++ {
-			vCert(a, b)
+			zvsCert(a, b)
 		}
 	}
 	work := make(chan int, len(cases))
@@ -986,7 +986,7 @@ func TestVerifSigner(t *testing.T) {
 		wg.Add(1)
 		go func(li int) {
 			defer wg.Done()
-			lane := vNewLane(li, pki, tlsMode)
+			lane := zvsNewLane(li, pki, tlsMode)
 			defer lane.close()
 			r := verifh.NewRand("signer-lane", int64(li))
 			for k := range work {
@@ -995,7 +995,7 @@ func TestVerifSigner(t *testing.T) {
 				tr.EmitAll(recs)
 				mu.Lock()
 				for _, x := range recs {
-					if s, ok := x.(vStep); ok {
+					if s, ok := x.(zvsStep); ok {
 						switch s.E["op"] {
 						case "contact":
 							contacts++
@@ -1009,7 +1009,7 @@ func TestVerifSigner(t *testing.T) {
 		}(li)
 	}
 	wg.Wait()
-	vMust(tr.Close())
+	zvsMust(tr.Close())
 	sum, _ := json.Marshal(map[string]interface{}{"mode": plan.Mode, "cases": len(cases), "contacts": contacts, "returns": returns, "events": tr.N,
 		"random": plan.Random, "lanes": plan.Lanes})
 	fmt.Printf("VERIF-SUMMARY %s\n", sum)
